@@ -1,7 +1,7 @@
 (** Extraction of the executable models for the correspondence check.
     Directives used: those of ExtrOcamlBasic only (bool, option, unit, list,
-    prod, sumbool, sumor, comparison-free); Z / positive / nat stay inductive. *)
+    prod, sumbool, sumor); Z / positive / nat stay inductive; no Extract Constant. *)
 From Coq Require Import Extraction ExtrOcamlBasic.
-From Verif Require Import M2.DateTime.
+From Verif Require Import M2.DateTime M1.Containers.
 Extraction Language OCaml.
-Extraction "model.ml" c20_entry.
+Extraction "model.ml" c20_entry c12_entry c12_lin_entry.
